@@ -41,8 +41,30 @@ var parts = []engine.AnyPart{
 
 // restart: reservations must not outlive the connection they were made on.
 func genRestart(t *rapid.T) sim.Scenario {
+	if rapid.IntRange(0, 3).Draw(t, "stale") == 0 {
+		// a reply that is still on its way out (pin) when the connection ends and
+		// the same Server already serves the next one, where its id is in use again
+		sc := sim.Scenario{}
+		sc.Cfg.Concurrency = pick(t, "limit", []int{2, 3, 32})
+		sc.Cfg.Salt = rapid.Uint64().Draw(t, "salt")
+		sc.Cfg.Chan = pick(t, "chan", []string{"direct", "pipe"})
+		sc.Cfg.Pins = []sim.Pin{{Site: "srv.deliver.lock", Delay: pick(t, "hold", []int{200000, 100000, 9000})}}
+		id := pick(t, "id", []string{"1", `"a"`, "7"})
+		call := func(k int, burst bool) sim.Step {
+			return sim.Step{Op: "send", Burst: burst, Rec: engine.Bytes(fmt.Sprintf(`{"jsonrpc":"2.0","id":%s,"method":"gate","params":{"k":%d}}`, id, k))}
+		}
+		sc.Steps = append(sc.Steps, call(1, false),
+			sim.Step{Op: "release", K: 1, Out: pick(t, "out", []string{"ok", "err:-32000"}), Burst: true},
+			sim.Step{Op: pick(t, "end", []string{"peerclose", "stop"}), Burst: true},
+			sim.Step{Op: "restartnow", Burst: true},
+			call(2, false),
+			sim.Step{Op: "release", K: 2, Out: "ok"})
+		return sc
+	}
 	return gen.ShutdownScenarioPool(t, []string{"1", "2", `"1"`, "3"})
 }
+
+func pick[T any](t *rapid.T, label string, xs []T) T { return rapid.SampledFrom(xs).Draw(t, label) }
 
 func runRestart(t *testing.T, sc sim.Scenario) engine.Verdict {
 	h := sim.Run(t, sc)
@@ -64,12 +86,13 @@ func runRestart(t *testing.T, sc sim.Scenario) engine.Verdict {
 			secondTraffic++
 		}
 	}
-	return engine.Verdict{NonTrivial: inflightAtStop && secondTraffic > 1, Labels: []string{fmt.Sprintf("in-flight-at-stop:%v", inflightAtStop), fmt.Sprintf("records-on-second-connection:%d", min(secondTraffic, 6))}}
+	staleScript := len(sc.Cfg.Pins) == 1 && sc.Cfg.Pins[0].Site == "srv.deliver.lock"
+	return engine.Verdict{NonTrivial: (inflightAtStop && secondTraffic > 1) || staleScript, Labels: []string{fmt.Sprintf("in-flight-at-stop:%v", inflightAtStop), fmt.Sprintf("records-on-second-connection:%d", min(secondTraffic, 6))}}
 }
 
 func init() {
 	parts = append(parts, engine.Part[sim.Scenario]{Name: "restart", Run: runRestart, Gen: genRestart,
-		Rule: "shutdown scripts (traffic, Stop / peer close / channel faults at any point, WaitStatus, Start of the same Server on a fresh channel, 2-8 more steps of traffic) with every request id drawn from the pool {1, 2, \"1\", 3}: on each connection an id in the reserved set at a quiescent point was sent on that connection, and a duplicate-id rejection names an id sent at least twice on that connection; non-trivial = calls were in flight at the last quiescent point before the stop and the second connection carried more than the probe; distinct = hash of the scenario"})
+		Rule: "shutdown scripts (traffic, Stop / peer close / channel faults at any point, WaitStatus, Start of the same Server on a fresh channel, 2-8 more steps of traffic) with every request id drawn from the pool {1, 2, \"1\", 3}: on each connection an id in the reserved set at a quiescent point was sent on that connection, and a duplicate-id rejection names an id sent at least twice on that connection; in a quarter of the scripts a reply is still on its way out (pin) when the connection ends, the Server is started again within the same step and the id is used at once on the new connection: a call whose handler is running has its id reserved; non-trivial = calls were in flight at the last quiescent point before the stop and the second connection carried more than the probe, or the script is of the second kind; distinct = hash of the scenario"})
 }
 
 func TestProp(t *testing.T)   { engine.RunParts(t, "C07", parts) }
